@@ -214,4 +214,26 @@ func init() {
 			"CSS tokenizer: character-class view of non-ASCII (bytes >= 0x80 are name characters)"},
 		Intrinsics: []string{"fmt.Fprintf with %s and \\%06X", "(*bytes.Buffer) methods", "regexp MatchString", "range over string / WriteRune: symbolic UTF-8 codec", "strings.HasPrefix/HasSuffix from SSA"},
 	})
+
+	reg(&Prop{
+		ID:    "C16",
+		Title: "CSSRule yields exactly one rule: selectors cannot inject blocks, rules or markup",
+		Harnesses: []HarnessSpec{
+			{Pkg: "safehtml", Name: "vHarness_C16_rule", Quick: []ParamRange{{"ascii", 1, 1}, {"style", 1, 1}, {"n", 0, 7}}, Thorough: []ParamRange{{"ascii", 1, 1}, {"style", 0, 1}, {"n", 0, 7}}, Reach: []string{"accepted", "rejected"},
+				Desc: "success => result == selector{style}; the CSS tokenizer run over the selector ends between tokens with all brackets closed, sees no ill-formed string/url, no { } ; @ comment or <"},
+			{Pkg: "safehtml", Name: "vHarness_C16_rule", Quick: []ParamRange{{"ascii", 0, 0}, {"style", 1, 1}, {"n", 1, 3}}, Thorough: []ParamRange{{"ascii", 0, 0}, {"style", 1, 1}, {"n", 1, 4}},
+				Desc: "same, arbitrary bytes"},
+		},
+		Probes: []ProbeSpec{
+			{Pkg: "safehtml", Name: "vProbe_C16_rule", NArgs: 1, Alphabet: cssAlphabet + "[]=^$|~>", MaxLen: 12, N: 2000, TestDir: ".", Extra: []string{"a[href=\"x\"]", "url(x\"){\"y)", "a:not(.b)", "a\\", "\"a\nb\"", "'\\\n'", "a/*", "[a=']']", "((", ")("}},
+			{Pkg: "safehtml", Name: "vProbe_C16_scan", NArgs: 1, Alphabet: cssAlphabet + "[]=^$|~>", MaxLen: 10, N: 300},
+		},
+		Functions: []string{"safehtml.CSSRule", "safehtml.hasBalancedBrackets", "safehtml.StyleSheet.String", "container/list (stdlib SSA)", "patterns cssStringPattern, invalidCSSSelectorRune and matchingBrackets from the current source"},
+		Bounds: map[string]string{
+			"quick":    "every ASCII selector of length 0..7 and every byte string of length 1..3, style \"color:red;\"",
+			"thorough": "every ASCII selector of length 0..7 (styles \"\" and \"color:red;\") and every byte string of length 1..4",
+		},
+		Outside: []string{"selectors longer than the bounds (the full rule-injecting member of the known-finding family needs 40+ bytes; its 8-byte relatives are inside)", "Style values other than the two constants (they come from checked constructors)"},
+		Intrinsics: []string{"(*Regexp).ReplaceAllString (leftmost-first segmentation)", "(*Regexp).FindStringSubmatch", "strings.ContainsRune", "fmt.Sprintf %s{%s}", "map iteration in insertion order (matchingBrackets: order-independent use)"},
+	})
 }
